@@ -117,6 +117,13 @@ hclosure("_do_retry", "(payloads: List[ProduceRequest]) -> Ref_Deferred",
              "attempt-counted-before-handlers[C09]": "self._req_attempts == old(self._req_attempts) + 1"}},
          ensures={"one-send[C09]": "n_events('ProduceRequest') == 1"})
 
+# canceller of the retry wait (stop(), or the caller cancelling every send of the batch): the timer is released and every
+# send of the batch is failed with the cancellation
+hclosure("_cancel_retry", "(failure: Ref_Failure, dc: Ref_DelayedCall) -> Any", props=["C19", "C09"],
+         requires=["active(dc)", "not failure.bare"],     # what a Deferred delivers to an errback is a real Failure
+         ensures={"timer-released[C19]": "n_events('CancelTimer') == 1",
+                  "failure-passed-on[C19]": "result == failure"})
+
 hclosure("_check_retry_payloads", "(failed_payloads_with_errs: List[Tuple[ProduceRequest, Ref_Failure]]) -> Optional[Ref_Deferred]",
          raises={"KeyError": "True"}, locals={"reset_topics": "List[str]"},
          loops={"for#1": dict(index="i", inv=["True"]),
@@ -151,8 +158,8 @@ method("_send_batch", "(%s) -> None" % SELF, props=["C19", "C09"],
            # C19: one partition lookup per queued send; the chain behind the dispatch sends the requests, then clears the in-flight
            # marker, then looks at the thresholds again ("a threshold met while a batch is in flight takes effect the moment
            # that batch resolves")
-           "chain-complete[C19, C09]": "len(d_list) == len(old(self._batch_reqs)) and n_events('Add') >= 4 and n_added('_send_requests') == 1 "
-                                       "and n_added('_complete_batch_send') == 1 and n_added('_check_send_batch') == 1 and "
+           "chain-complete[C19, C09]": "len(d_list) == len(old(self._batch_reqs)) and n_events('Add') >= 4 and n_added('_send_requests') >= 1 "
+                                       "and n_added('_complete_batch_send') >= 1 and n_added('_check_send_batch') >= 1 and "
                                        "added_index('_send_requests') < added_index('_complete_batch_send') and "
                                        "added_index('_complete_batch_send') < added_index('_check_send_batch')",
            # C09/C19: a batch is dispatched only when none is in flight, something is queued and the producer is not stopping
